@@ -24,7 +24,7 @@ ASSUMPTIONS = ["a slow constructor (sleep) is a legitimate application behaviour
                "scheduling points = source lines of Daemon._getInstance (and its nested createInstance) only"]
 REQUIRED_REACH = ["shutdown_cases_ok", "connected_socket_ok", "failing_disconnect_hooks", "single_ok", "session_ok", "percall_ok", "creator_counts_ok", "failing_creator_ok", "racing_first_calls", "session_instances_dropped", "schedules_explored", "multi_daemon_ok", "oneway_first_requests", "registered_class_inherits_behavior", "registration_changes_ok", "slow_constructor_with_commtimeout"]
 SHARD_TIMEOUT = {"quick": 240, "thorough": 2800}
-SHAPES = ["truthy", "falsy_len", "falsy_bool", "eq_always"]
+SHAPES = ["truthy", "falsy_len", "falsy_bool", "eq_always", "unhashable"]
 CREATORS = ["none", "ok", "raises", "raises_type", "wrongtype", "subclass"]     # subclass: the creator returns an instance of a subclass (allowed by the daemon's isinstance check)
 
 
@@ -81,6 +81,10 @@ def make_class(P, mode, shape, creator, slow=0.0, inherit=False):
         Inst.__len__ = lambda self: 0
     elif shape == "falsy_bool":
         Inst.__bool__ = lambda self: False
+    elif shape == "unhashable":
+        # a container-like class: equality by content, hence no hash at all
+        Inst.__eq__ = lambda self, other: self is other
+        Inst.__hash__ = None
     elif shape == "eq_always":
         Inst.__eq__ = lambda self, other: True
         Inst.__hash__ = lambda self: 7
@@ -217,7 +221,14 @@ def socket_case(fx, mode, shape, creator, nconn, ncalls, rec, r, sername, race, 
             rec.count("failing_creator_ok")
             return
         if len(ok_calls) != len(calls):
-            rec.inconc("calls failed unexpectedly: %r" % ([c for c in calls if c[2][0] == "exc"][:2],))
+            failed = [c for c in calls if c[2][0] == "exc"]
+            if all(c[2][1] not in ("CommunicationError", "ConnectionClosedError", "TimeoutError", "ProtocolError") for c in failed):
+                # not a transport problem: the daemon answered these calls with an error although class, constructor and creator are in order -
+                # whatever the instances look like, they are created according to the mode and serve their calls
+                rec.violation("valid-class-not-served:" + shape, "%s/%s/%s: %d of %d calls were answered with %r; %d instances were constructed meanwhile, %d creator calls" % (
+                    mode, shape, creator, len(failed), len(calls), sorted({c[2][1] for c in failed}), len(created), ccalls), pay)
+                return
+            rec.inconc("calls failed unexpectedly: %r" % (failed[:2],))
             return
         if oneway_sent[0]:
             fx.wait_until(lambda: book.oneway_done >= oneway_sent[0], 10.0)
